@@ -168,6 +168,9 @@ class SymList:
         self.at = at
         self.name = name
 
+    def __getitem__(self, k):  # spec-level access (contracts): unchecked
+        return self.at(k if isinstance(k, z3.ExprRef) else z3.IntVal(int(k)))
+
 
 class SegList:
     """concatenation of concrete elements and SymLists (a Python list whose
